@@ -143,7 +143,7 @@ fn plain_body<const LEN: u64, const SENT: u64, const N: usize>() {
  "bound": "identity body, Content-Length {3}, {1} bytes already delivered; a write of exactly {2} bytes (symbolic contents); the client sink accepts a symbolic prefix 0..=offered",
  "desc": "one transition of identity-body forwarding equals the reference: only body bytes are offered, unaccepted and surplus bytes come back as unsent, the count grows by the accepted amount, eof exactly at the last body byte; no panic",
  "encodes": ["http_forwarded_stream::ForwardedStreamSink::on_non_encoded_chunk"],
- "quick": "[(5,0,5,5),(5,0,3,5),(5,2,3,5),(5,2,5,5),(5,0,7,5),('u64::MAX',0,4,'none'),('u64::MAX',9,2,'none')]",
+ "quick": "[(5,0,5,5),(5,0,3,5),(5,2,3,5),(5,2,5,5),(5,0,7,5),('{ u64::MAX }',0,4,'none'),('{ u64::MAX }',9,2,'none')]",
  "thorough": "[(l,s,n,l) for l in (1,4) for s in range(0,l) for n in (1,l-s,l-s+1)]"}
 @*/
 
